@@ -5,8 +5,8 @@
    instead of a logged draw stream.  Each is a run of the stream-driven model on the trace of
    draws it produces, hence every theorem of Properties_C17.v holds of seeded runs: for every
    seed, every previous engine content.  Integer draws need no contract any more (their range
-   is a theorem, Dist_C07.v); real and boolean draws are still checked against the contract
-   (None otherwise).  Nothing else lives in this file. *)
+   is a theorem, Dist_C07.v), nor boolean draws (C17_seeded_boolean_never_refused); real draws are still
+   checked against lo <= v <= hi (None otherwise).  Nothing else lives in this file. *)
 From Coq Require Import ZArith List Bool.
 From VV Require Import Base.F64 Rng.RngDefs Rng.RngProofs Rng.DistDefs Ga.GaDefs Ga.GaProofs Ga.GaSeededDefs Ga.GaSeededProofs.
 Import ListNotations.
@@ -38,6 +38,12 @@ Theorem C17_seeded_de_crossover_refines : forall p flo fhi t a b c st trial st' 
   de_crossover p flo fhi t a b c (tr ++ rest) = Some (trial, rest) /\ wf st'.
 Proof. exact sde_crossover_ref. Qed.
 Print Assumptions C17_seeded_de_crossover_refines.
+
+(* in seeded runs the boolean draws need no contract check: boolean(0)=false / boolean(1)=true is a theorem
+   about std::bernoulli_distribution over the engine (Dist_C07.v), so the check never refuses *)
+Theorem C17_seeded_boolean_never_refused : forall p st, wf st -> exists b st' tr, e_bool p st = Some (b, st', tr).
+Proof. exact e_bool_never_refuses. Qed.
+Print Assumptions C17_seeded_boolean_never_refused.
 
 (* consequences, straight from a seed: vita::random::seed(s); i_ga x(problem) *)
 Theorem C17_seeded_ga_creation_in_range : forall fuel ranges old s x st' tr,
